@@ -2,7 +2,7 @@
 import io
 import json
 from hypothesis import strategies as st
-from vf.common.core import Violation, check, run_hypothesis
+from vf.common.core import Violation, Inconclusive, check, run_hypothesis
 from vf.common import be
 from vf.model import auction as A, play as P, protocol as PR
 from vf.props import _session as SE
@@ -16,7 +16,7 @@ KINDS_PLAY = ['unparseable card', 'card held by another seat', 'card already pla
 RULE = ('simulated sessions of n = 1-5 boards (generator of C08) with exactly one fault: abort at board k (1..n), in the auction '
         'at call j or in the play at card j, by whichever seat acts there, of kind ' + ', '.join(KINDS_AUCTION + KINDS_PLAY) +
         ', or an operator interrupt (KeyboardInterrupt raised in the main thread at its j-th blocking queue read of '
-        'board k). Kind and board class (first / second / last board) are drawn uniformly (class histogram in the evidence); j, '
+        'board k); plus, on a REAL server process running the table manager in its main thread over loopback TCP, a real SIGINT (what Ctrl-C sends) delivered while it waits for the acting seat at a generated point of board k >= 2 (8 per quick run, 400 per thorough run; a wall-clock safety net there means inconclusive). Kind and board class (first / second / last board) are drawn uniformly (class histogram in the evidence); j, '
         'the rest of the scenario and the thread schedule are generated. Oracle: Server.run raises; afterwards the output file parses as '
         'JSON, passes JsonParser.parse_board_logs, and holds exactly the records of boards 1..k-1 (each equal to the C08 '
         'expectation on every field) and nothing of board k. evaluations = aborted sessions. Non-trivial = abort with '
@@ -27,7 +27,8 @@ ASSUMPTIONS = ['simulation kernel fidelity (DESIGN.md 4.3/4.5)',
 
 def plan(tier):
     n, per = (16, 200) if tier == 'quick' else (16, 5000)
-    return [{'kind': 'aborts', 'n': per, 'min_boards': 1 + i % 3} for i in range(n)]
+    nr, perr = (4, 2) if tier == 'quick' else (16, 25)
+    return [{'kind': 'aborts', 'n': per, 'min_boards': 1 + i % 3} for i in range(n)] + [{'kind': 'real-interrupt', 'n': perr} for _ in range(nr)]
 
 
 def offending_text(scenario, k, phase, j, kind):
@@ -94,7 +95,64 @@ def gets_before(scenario, k):
     return n
 
 
-def check_session(scenario, schedule, stats=None, fault=None, **kw):
+def check_real_interrupt(scenario, fault, stats=None):
+    """A real SIGINT (Ctrl-C) delivered to a real server PROCESS while its main thread waits for the acting seat."""
+    from vf.sim.realrun import run_real_interrupt
+    from bridge_env.data_handler.json_handler.parser import JsonParser
+    k = fault['board']
+    r = run_real_interrupt(scenario, fault)
+    case = {'scenario': scenario, 'schedule': {'kind': 'sequential'}, 'fault': fault, 'real_process': True}
+    if r.timed_out or not r.interrupt_sent:
+        raise Inconclusive(f'real operator-interrupt run did not get to its interrupt (timed_out={r.timed_out}, client errors {list(r.client_exc.items())[:2]})')
+    text = r.output_text
+    try:
+        logs = json.loads(text)['logs']
+    except Exception as e:  # noqa
+        raise Violation('after a real operator interrupt (SIGINT) the output file is not a complete JSON document', case,
+                        {'error': repr(e)[:160], 'tail': (text or '')[-60:], 'server_returncode': r.returncode, 'stderr': r.stderr_tail[-300:]})
+    try:
+        parsed = JsonParser().parse_board_logs(io.StringIO(text))
+    except Exception as e:  # noqa
+        raise Violation('after a real operator interrupt the log parser rejects the output file', case, {'error': repr(e)[:200]})
+    check(len(logs) == k and len(parsed) == k, 'after a real operator interrupt the log does not hold exactly the boards finished before it', case,
+          {'in_log': len(logs), 'finished_before_abort': k, 'server_returncode': r.returncode})
+    for i in range(k):
+        e = SE.board_expect(scenario['boards'][i])
+        for f in SE.LOG_FIELDS:
+            check(logs[i].get(f, '<missing>') == e[f], f'a board finished before the real interrupt is not whole: {f}', case,
+                  {'board': i, 'logged': logs[i].get(f, '<missing>'), 'expected': e[f]})
+    if stats is not None:
+        stats.evaluated()
+        stats.cls('real SIGINT to a real server process')
+        stats.cls(f'real interrupt during the {fault["phase"]}')
+        if k >= 1:
+            stats.nt(['real', k, len(scenario['boards']), fault['phase'], fault['pos']], {'real_sigint': True, 'fault': fault, 'server_returncode': r.returncode} if k == 1 else None)
+
+
+@st.composite
+def real_case(draw):
+    scenario = draw(SE.SCENARIO(2, 3, 6))
+    scenario = dict(scenario, split=None)
+    n = len(scenario['boards'])
+    k = draw(st.integers(1, n - 1))
+    b = scenario['boards'][k]
+    res = A.result(b['dealer'], b['calls'])
+    phase = draw(st.sampled_from(['auction', 'play'])) if res is not None else 'auction'
+    if phase == 'auction':
+        j = draw(st.integers(0, len(b['calls']) - 1))
+        seat = (b['dealer'] + j) % 4
+    else:
+        j = draw(st.integers(0, 51))
+        m = P.Play(res[2], res[0] % 5)
+        for c in b['cards'][:j]:
+            m.play(c)
+        seat = res[2] if m.turn == m.dummy else m.turn
+    return scenario, {'board': k, 'phase': phase, 'pos': j, 'kind': 'operator interrupt (real SIGINT)', 'seat': seat}
+
+
+def check_session(scenario, schedule, stats=None, fault=None, real_process=False, **kw):
+    if real_process:
+        return check_real_interrupt(scenario, fault, stats)
     k = fault['board']
     hook = None
     if fault['kind'] == 'operator interrupt':
@@ -181,6 +239,9 @@ def case_strategy(draw, min_boards=1):
 
 
 def run_shard(spec, seed, tier, stats):
+    if spec['kind'] == 'real-interrupt':
+        v = run_hypothesis(lambda cs: check_real_interrupt(cs[0], cs[1], stats), {'cs': real_case()}, seed, spec['n'], False)
+        return [v] if v else []
     v = run_hypothesis(lambda cs, schedule: check_session(cs[0], schedule, stats, fault=cs[1]),
                        {'cs': case_strategy(spec['min_boards']), 'schedule': SE.SCHEDULE()}, seed, spec['n'], tier == 'thorough')
     return [SE.reduce_violation(check_session, v)] if v else []
